@@ -208,6 +208,9 @@ def replay_lifecycle_case(case):
                 elif op == "defragment":
                     dst = os.path.join(tmp, "defrag_out.tdms")
                     TdmsWriter.defragment(source(), dst, index_file=(cfg["index"] == "index"))
+                elif op == "defragment_baddest":
+                    dst = os.path.join(tmp, "no_such_dir", "defrag_out.tdms")
+                    TdmsWriter.defragment(source(), dst, index_file=(cfg["index"] == "index"))
                 elif op == "stream_start":
                     gen_it = iter(f["g"]["c"].data_chunks() if o["kind"] == "chan" else f.data_chunks())
                     for _ in range(o["taken"]):
